@@ -22,10 +22,16 @@ type propCmd struct {
 
 var props = map[string]*propCmd{}
 
+// earlyHooks let a property file take over the process before argument
+// parsing (re-entrant uses of the vh binary: stage executable, env dumper).
+// Each returns true when it handled the invocation.
+var earlyHooks []func() bool
+
 func main() {
-	if os.Getenv("VH_DUMP") == "1" {
-		dumpEnvMain()
-		return
+	for _, h := range earlyHooks {
+		if h() {
+			return
+		}
 	}
 	defer hx.Out.Flush()
 	if len(os.Args) < 3 {
